@@ -257,14 +257,15 @@ fn run_handler(ctx: &RunCtx) -> RunOut {
 
 struct MockDirector {
     server: tokio::sync::Mutex<OmahaServer>,
-    reconfig_after: Option<(usize, OmahaResponse)>,
+    /// reconfigure (through the server's own endpoint) before update check number i (0-based)
+    reconfig_before: Vec<Option<OmahaResponse>>,
     seen_uc: usize,
 }
 impl Director for MockDirector {
     fn http(&mut self, _w: &mut Inner, req: &WireReq) -> HttpAns {
         if req.kind == ReqKind::UpdateCheck {
-            if let Some((n, k)) = self.reconfig_after {
-                if self.seen_uc == n {
+            if let Some(Some(k)) = self.reconfig_before.get(self.seen_uc).cloned() {
+                {
                     // reconfigure through the server's own endpoint
                     let body = json!({"app-A": {"response": format!("{k:?}"), "check_assertion": "UpdatesEnabled", "version": "1.2.3.4", "cohort_assertion": null, "codebase": "fuchsia-pkg://x/", "package_name": "pkg"}});
                     let r = hyper::Request::post("/set_responses_by_appid").body(hyper::Body::from(body.to_string())).unwrap();
@@ -300,6 +301,7 @@ fn run_sm(ctx: &RunCtx) -> RunOut {
     let cup = forced_etag || choose("cup", 2) == 1;
     let url = URLS[choose("url", URLS.len())];
     let reconfig = choose("reconfigure_to", 6);
+    let reconfig2 = choose("reconfigure_again_to", 6);
     let mut s = Setup::new(Mode::Start);
     s.blocking = Blocking::timers_only();
     s.cup = cup;
@@ -321,19 +323,23 @@ fn run_sm(ctx: &RunCtx) -> RunOut {
             etag_override: if forced_etag { Some("00:11".into()) } else { None },
             require_cup: cup,
         }),
-        reconfig_after: if reconfig > 0 { Some((1, KINDS[reconfig - 1])) } else { None },
+        reconfig_before: vec![
+            None,
+            if reconfig > 0 { Some(KINDS[reconfig - 1]) } else { None },
+            if reconfig2 > 0 { Some(KINDS[reconfig2 - 1]) } else { None },
+        ],
         seen_uc: 0,
     };
     let mut e = Exec::new(s, Box::new(d), Store::default());
-    // two checks: run default scheduling until the second Idle
-    let stop = e.run_auto(2000, |w| w.log.iter().filter(|o| matches!(o, Obs::Ev(Ev::State(State::Idle)))).count() >= 2);
+    // three checks: run default scheduling until the third Idle
+    let stop = e.run_auto(3000, |w| w.log.iter().filter(|o| matches!(o, Obs::Ev(Ev::State(State::Idle)))).count() >= 3);
     let log = e.log();
     let mut out = RunOut::new(format!("{kind:?}"), cup, trace::digest(&log));
     if ctx.want_trace {
         out.trace = Some(json!({"kind": format!("{kind:?}"), "forced_etag": forced_etag, "cup": cup, "url": url, "reconfigure": reconfig, "log": trace::trace_json(&log)}));
     }
     if stop != Stop::Condition {
-        return out.fail(format!("state machine against the mock did not complete two checks: {stop:?}"), "");
+        return out.fail(format!("state machine against the mock did not complete three checks: {stop:?}"), "");
     }
     // outcome classes of the two checks
     let results: Vec<&Ev> = log.iter().filter_map(|o| if let Obs::Ev(e @ Ev::Result(_)) = o { Some(e) } else { None }).collect();
@@ -362,12 +368,13 @@ fn run_sm(ctx: &RunCtx) -> RunOut {
         }
     };
     let second_kind = if reconfig > 0 { KINDS[reconfig - 1] } else { kind };
-    let exp = [expect(kind, forced_etag), expect(second_kind, forced_etag)];
+    let third_kind = if reconfig2 > 0 { KINDS[reconfig2 - 1] } else { second_kind };
+    let exp = [expect(kind, forced_etag), expect(second_kind, forced_etag), expect(third_kind, forced_etag)];
     let got: Vec<&str> = results.iter().map(|e| class(e)).collect();
     if got != exp {
         return out.fail(
             format!("state machine against the mock reaches {got:?}, configured outcome {exp:?}"),
-            format!("kind {kind:?}, forced etag {forced_etag}, cup {cup}, url {url}, reconfigured to {second_kind:?}"),
+            format!("kind {kind:?}, forced etag {forced_etag}, cup {cup}, url {url}, reconfigured to {second_kind:?} then {third_kind:?}"),
         );
     }
     // urgent update attribute visible to the embedder
@@ -392,7 +399,7 @@ fn parts(tier: Tier) -> Vec<PartDef> {
         PartDef::new(
             "state-machine-vs-mock",
             Cfg::new("C17/state-machine-vs-mock"),
-            json!({"response_kinds": 5, "forced_etag": 2, "cup": 2, "urls": URLS.len(), "reconfigure_between_checks": "none or to each of 5 kinds (through /set_responses_by_appid)", "checks_per_run": 2, "exploration": "full product"}),
+            json!({"response_kinds": 5, "forced_etag": 2, "cup": 2, "urls": URLS.len(), "reconfigure_between_checks": "before check 2 and before check 3: none or to each of 5 kinds (through /set_responses_by_appid)", "checks_per_run": 3, "exploration": "full product"}),
             run_sm,
         ),
     ]
